@@ -149,6 +149,17 @@ func (om *OriginMap) Of(e ast.Expr) (Origin, bool) {
 func (om *OriginMap) ComparedPaths(body ast.Node, a, b *types.Var) map[string]token.Pos {
 	out := map[string]token.Pos{}
 	ast.Inspect(body, func(n ast.Node) bool {
+		// slices.Contains(S, x) / slices.Index(S, x): the elements of S are compared with x
+		if call, ok := n.(*ast.CallExpr); ok && len(call.Args) == 2 {
+			if fn := Callee(om.Info, call); fn != nil && fn.Pkg() != nil && fn.Pkg().Path() == "slices" && (fn.Name() == "Contains" || fn.Name() == "Index") {
+				os, ok1 := om.Of(call.Args[0])
+				oe, ok2 := om.Of(call.Args[1])
+				if ok1 && ok2 && os.Path+".[]" == oe.Path && ((os.Root == a && oe.Root == b) || (os.Root == b && oe.Root == a)) {
+					out[oe.Path] = call.Pos()
+				}
+			}
+			return true
+		}
 		be, ok := n.(*ast.BinaryExpr)
 		if !ok || (be.Op != token.EQL && be.Op != token.NEQ) {
 			return true
